@@ -215,7 +215,9 @@ fn rewrites(name: &str, text: &str, project: &Project, rng: &mut Rng, per_kind: 
   // R1 alpha-renaming
   let mut bindings = scope::resolve(&tree);
   rng.shuffle(&mut bindings);
-  for (k, b) in bindings.iter().filter(|b| !b.shorthand).take(per_kind).enumerate() {
+  // the binder zoo is small: rename every one of its bindings in turn
+  let renames = if name == "Zoo" { usize::MAX } else { per_kind };
+  for (k, b) in bindings.iter().filter(|b| !b.shorthand).take(renames).enumerate() {
     let fresh = format!("alphaRenamed{k}x{}", rng.below(100));
     let edits: Vec<(Location, String)> = b.defs.iter().chain(b.uses.iter()).map(|l| (*l, fresh.clone())).collect();
     if let Some(t) = apply(text, &edits) {
